@@ -17,8 +17,9 @@ EXPLANATION = (
 def run(ctx):
     ctx.uses('simulator', 'pubsub', 'interfaces')
     ctx.trust('threading.Event contract (set/clear/wait)')
+    # first: state shared between simulator objects (it makes every later anchor meaningless, so it is reported even when they vanish)
+    S.shared_state(ctx, None, 'R4.10')
     sc = S.SimCtx(ctx.prog)
-    S.shared_state(ctx, sc, 'R4.10')
     S.r41_refuse_before_effect(ctx, sc)
     S.r42_admission_tables(ctx, sc)
     S.r43_notifications(ctx, sc)
